@@ -36,7 +36,8 @@ def _c15_harnesses():
         ("push_back", "SlidingDeque::push_back", "view' = view ++ [x]; back() = x", 2),
         ("pop_front", "SlidingDeque::pop_front", "returns view[0] (None on empty); view' = view[1..]", 4),
         ("pop_back", "SlidingDeque::pop_back", "returns view[last] (None on empty); view' = view[..last]", 3),
-        ("advance", "SlidingDeque::advance", "for count in {{0..N+1}} u {{2^63, usize::MAX-1, usize::MAX}}: returns min(count, len); view' = view[ret..]", 3),
+        ("advance", "SlidingDeque::advance", "for count in {{0..N+1}} u {{2^63, usize::MAX}}: returns min(count, len); view' = view[ret..] "
+         "(states split over three harnesses by container length)", 3),
         ("clear", "SlidingDeque::clear", "view' = []", 0),
         ("slide", "SlidingDeque::slide", "view' = view; consumed prefix = 0", 1),
         ("views", "SlidingDeque::{front,back,front_mut,back_mut,deref,deref_mut,len,is_empty}",
@@ -46,29 +47,89 @@ def _c15_harnesses():
     hs = []
     for backing, label in (("vec", "Vec<u8>"), ("small", "SmallVec<[u8;2]>")):
         for op, owner, post, covers in ops:
-            hs.append(Harness(
-                "c15_%s_%s" % (backing, op), ["C15"], owner,
+            names = ["c15_%s_%s" % (backing, op)]
+            if op == "advance":
+                names = ["c15_%s_advance_%s" % (backing, x) for x in ("abc" if backing == "vec" else "ab")]
+                covers = 0
+            for nm in names:
+              hs.append(Harness(
+                nm, ["C15"], owner,
                 "[%s] requires rep_ok; ensures rep_ok (consumed <= len/2, empty => consumed = 0, debug check_rep "
                 "asserts pass, no panic) /\\ %s" % (label, post),
-                kind="bounded", bound="backing container length <= {N}: every (length, consumed prefix) pair enumerated, "
-                "contents symbolic; inductive per operation => all histories within that size",
+                kind="bounded", bound=("backing container length <= {N}" if backing == "vec" else "backing container length <= {NS}") +
+                ": every (length, consumed prefix) pair enumerated, contents symbolic; inductive per operation => all "
+                "histories within that size",
                 covers=covers, timeout=900, mod="sliding_deque"))
+    return hs
+
+
+def _c16_harnesses():
+    ops = [
+        ("find", "SortedDeque::find", "returns the live item stored under exactly the probed key, None otherwise "
+         "(erased items are never found)", 2, None),
+        ("remove", "SortedDeque::remove", "returns the live item and removes exactly it from the map (front, back and middle "
+         "positions); afterwards it is not found; absent key: None, map unchanged", 3, None),
+        ("pop_first", "SortedDeque::{first,pop_first}", "first() / pop_first() are the smallest live item; map loses exactly it; "
+         "newly exposed erased items are cleaned up", 1, None),
+        ("pop_last", "SortedDeque::{last,pop_last}", "last() / pop_last() are the largest live item; map loses exactly it", 1, None),
+        ("iter_clear", "SortedDeque::{iter,is_empty,clear}", "iteration yields exactly the live items in ascending key order; "
+         "clear empties the map", 0, None),
+        ("push_ok", "SortedDeque::push_back_or_panic", "erased item: no-op; key strictly greater than the last item: appended, "
+         "becomes last(); no panic", 2, None),
+        ("push_panics", "SortedDeque::push_back_or_panic", "key not strictly greater than the current last item: ALWAYS panics "
+         "(the statement after the call is unreachable)", 0, "push_back_or_panic"),
+    ]
+    hs = []
+    for kind, label in (("pairs", "(u8, Option<u8>) pairs"), ("whole", "whole-item ordering (SortedDequeItem)")):
+        for op, owner, post, covers, mp in ops:
+            hs.append(Harness(
+                "c16_%s_%s" % (kind, op), ["C16"], owner,
+                "[%s] requires rep_ok (sorted keys, first/last live, inner deque invariant); ensures rep_ok /\\ %s"
+                % (label, post), kind="bounded",
+                bound="at most {M} physical items: every (length, consumed prefix) enumerated; keys, values, erased flags "
+                      "symbolic; inductive per operation => all histories within that size",
+                covers=covers, timeout=1200, mod="sorted_deque", must_panic_in=mp))
     return hs
 
 
 SLIDING_DEQUE = KaniUnit(
     crate="sliding_deque",
-    attachments=[("sliding_deque/src/sliding_deque.rs", os.path.join(KC, "sliding_deque.rs"), "sliding_deque")],
-    params={"quick": {"N": 5, "U": 12}, "thorough": {"N": 7, "U": 14}},
-    harnesses=_c15_harnesses(),
+    attachments=[("sliding_deque/src/sliding_deque.rs", os.path.join(KC, "sliding_deque.rs"), "sliding_deque"),
+                 ("sliding_deque/src/sorted_deque.rs", os.path.join(KC, "sorted_deque.rs"), "sorted_deque")],
+    params={"quick": {"N": 5, "NS": 3, "U": 12, "M": 4}, "thorough": {"N": 7, "NS": 4, "U": 14, "M": 5}},
+    harnesses=_c15_harnesses() + _c16_harnesses(),
 )
 
+_C11_BOUND = "at most {K} pairs, values of at most {VL} bytes, all u32 tags"
+_C11 = [
+    Harness("c11_new_layout_roundtrip", ["C11"], "MessageWrapper::{new,encode,rough_tlv_len}",
+            "unsorted lists with repeated tags and empty values: emitted bytes are exactly count | N-1 cumulative end offsets | "
+            "N tags ascending, ties in insertion order | values concatenated; emitted length == rough_tlv_len; MessageView accepts "
+            "them and iter/get/find return the same pairs in the same order", kind="bounded", bound=_C11_BOUND, covers=4,
+            timeout=1500, mod="encoder"),
+    Harness("c11_cow_values", ["C11"], "MessageWrapper::{new_from_slice,encode}",
+            "Cow values: Borrowed goes through append_borrow, Owned through append_copy; same layout and round trip",
+            kind="bounded", bound=_C11_BOUND, covers=1, timeout=1500, mod="encoder"),
+    Harness("c11_new_from_sorted", ["C11"], "MessageWrapper::new_from_sorted",
+            "rejects exactly the lists whose tags decrease somewhere; accepted lists encode in the given order",
+            kind="bounded", bound=_C11_BOUND, covers=2, timeout=1500, mod="encoder"),
+    Harness("c11_nested_message", ["C11"], "MessageWrapper as ToRoughTLV",
+            "a value that is itself a message: lengths add up, the outer view yields bytes that the inner view decodes to the "
+            "inner pair", kind="bounded", bound="one level of nesting, one pair each, value <= {VL} bytes", timeout=1500,
+            mod="encoder"),
+    Harness("c11_length_limits_full_domain", ["C11"], "MessageWrapper::compute_len",
+            "for value lengths over the FULL usize domain: Err <=> some length > i32::MAX or (header + sum of lengths, computed "
+            "without saturation) > i32::MAX; Ok(l) => l is the exact total", kind="bounded",
+            bound="at most {K} pairs; lengths: every usize (pair count > i32::MAX is not materialisable: by inspection only)",
+            covers=4, timeout=1500, mod="encoder"),
+]
 _C12_BOUND = "every byte string of length <= {L} (N = 0..{L}/8 accepted shapes; every larger N, up to 2^32-1, rejected)"
 ROUGH_TLV = KaniUnit(
     crate="rough_tlv",
-    attachments=[("rough_tlv/src/decoder.rs", os.path.join(KC, "rough_tlv_decoder.rs"), "decoder")],
-    params={"quick": {"L": 16, "U": 6}, "thorough": {"L": 24, "U": 7}},
-    harnesses=[
+    attachments=[("rough_tlv/src/decoder.rs", os.path.join(KC, "rough_tlv_decoder.rs"), "decoder"),
+                 ("rough_tlv/src/encoder.rs", os.path.join(KC, "rough_tlv_encoder.rs"), "encoder")],
+    params={"quick": {"L": 20, "U": 6, "K": 2, "VL": 2, "U11": 8}, "thorough": {"L": 24, "U": 7, "K": 3, "VL": 3, "U11": 12}},
+    harnesses=_C11 + [
         Harness("c12_new_accepts_exactly", ["C12"], "MessageView::new",
                 "never panics; Ok <=> >= 4 bytes /\\ 8N <= len /\\ offsets non-decreasing /\\ tags non-decreasing "
                 "/\\ last offset inside the payload", kind="bounded", bound=_C12_BOUND, covers=7, mod="decoder"),
@@ -90,7 +151,39 @@ ROUGH_TLV = KaniUnit(
     ],
 )
 
-KANI_UNITS = {u.crate: u for u in [VOUCHED_TIME, SLIDING_DEQUE, ROUGH_TLV]}
+HCOBS_KANI = KaniUnit(
+    crate="hcobs",
+    attachments=[("hcobs/src/lib.rs", os.path.join(KC, "hcobs.rs"), "")],
+    params={"quick": {"L": 12, "U": 14}, "thorough": {"L": 24, "U": 26}},
+    harnesses=[
+        Harness("c07_constants", ["C07", "C01", "C02"], "PROD_PARAMS / RADIX / STUFF_SEQUENCE",
+                "RADIX == 253, STUFF_SEQUENCE == [FE, FD], PROD_PARAMS == (252, 253*253-1 = 64008) in the real build",
+                kind="proof", timeout=600),
+        Harness("c07_find_stuff_sequence_bounded", ["C07", "C01", "C02"], "find_stuff_sequence",
+                "Some(i) => FE FD at i and at no earlier index; None => at no index (the contract assumed by the Verus unit)",
+                kind="bounded", bound="every slice of length <= {L}", covers=3, timeout=900),
+    ],
+)
+
+OWNING_IOVEC = KaniUnit(
+    crate="owning_iovec",
+    attachments=[("owning_iovec/src/byte_arena/mod.rs", os.path.join(KC, "byte_arena.rs"), "byte_arena")],
+    params={"quick": {"S": 4, "CAP": 4, "U": 7}, "thorough": {"S": 5, "CAP": 5, "U": 8}},
+    harnesses=[
+        Harness("c17_read_n_impl_scripts", ["C17"], "ByteArena::read_n_impl",
+                "for every reader script: at most max_attempts calls; each call asks for exactly the bytes still missing (never "
+                "more than count in total); no call after EOF or a hard error; Ok(got) => got = bytes delivered, returned in "
+                "order; Ok whenever something was delivered or nothing failed; Err only when nothing was delivered, with the last "
+                "error's kind", kind="bounded",
+                bound="scripts of <= {S} steps over {{deliver k, Interrupted, EOF, hard error}}, 1 <= count <= {CAP}, "
+                      "1 <= max_attempts <= {S}", covers=6, timeout=1500, mod="byte_arena"),
+        Harness("c17_read_n_zero_count", ["C17"], "ByteArena::read_n",
+                "count == 0: returns an empty slice and never calls the reader, for every attempt limit", kind="proof",
+                timeout=900, mod="byte_arena"),
+    ],
+)
+
+KANI_UNITS = {u.crate: u for u in [VOUCHED_TIME, SLIDING_DEQUE, ROUGH_TLV, HCOBS_KANI, OWNING_IOVEC]}
 
 import units_hcobs
 import units_vouched_time
@@ -120,10 +213,51 @@ PROPERTIES["C15"] = {
     "kani_units": ["sliding_deque"],
     "verus_units": [],
     "assumptions": [
-        "bounded: backing container length <= N (5 quick / 7 thorough); element type u8; backings Vec<u8> and "
-        "SmallVec<[u8;2]> (inline->heap transition at 2 is inside the bound)",
+        "bounded: backing container length <= 5 quick / 7 thorough for Vec<u8>, <= 3 / 4 for SmallVec<[u8;2]> (inline->heap "
+        "transition at 2 is inside the bound; CBMC exhausts 20 GB beyond); element type u8",
         "induction over operations is a meta-argument (each operation proved from an arbitrary rep_ok state)",
         "Vec / SmallVec are executed as real code by Kani (no assumed contracts)",
+    ],
+}
+
+PROPERTIES["C16"] = {
+    "level": "model_checking",
+    "kani_units": ["sliding_deque"],
+    "verus_units": [],
+    "assumptions": [
+        "bounded: at most M physical items (4 quick / 5 thorough), keys u8, values Option<u8>; both provided item "
+        "conventions ((key, Option<value>) pairs and a SortedDequeItem with whole-item ordering); Vec backing",
+        "induction over operations is a meta-argument (each operation proved from every rep_ok state within the bound)",
+    ],
+}
+
+PROPERTIES["C17"] = {
+    "level": "model_checking",
+    "kani_units": ["owning_iovec"],
+    "verus_units": ["hcobs"],
+    "assumptions": [
+        "bounded (owning_iovec half): reader scripts of <= 4 (quick) / 5 (thorough) steps, count <= 4 / 5, attempts <= 4 / 5",
+        "ASSUMED: the unsafe alloc/release wrapper ByteArena::read_n around read_n_impl (arena code: Kani out of memory, "
+        "outside Verus's subset) hands read_n_impl a zeroed buffer of exactly `count` bytes and returns its first `got` bytes; "
+        "arena states (empty cache, nearly full chunk) are therefore NOT explored",
+        "codec half (Verus, unbounded): Encoder/Decoder::{read_n, encode_read, decode_read} against the assumed contract "
+        "`ByteArena::read_n returns at most count bytes`: a failed read leaves output and state untouched, a successful one "
+        "encodes/decodes exactly the returned bytes",
+        "reader deliveries larger than the buffer offered (a Read contract violation) are out of scope",
+    ],
+}
+
+PROPERTIES["C11"] = {
+    "level": "model_checking",
+    "kani_units": ["rough_tlv"],
+    "verus_units": [],
+    "assumptions": [
+        "bounded: <= 2 pairs x <= 2-byte values (quick), <= 3 x <= 3 (thorough); all u32 tags; the i32::MAX rule over all "
+        "usize lengths; pair count > i32::MAX not materialisable (inspection only)",
+        "sink = a recording ZeroCopySink defined in the harness: MessageWrapper is generic in its sink and OwningIovec / the "
+        "HCOBS Encoder cannot be loaded into Kani (arena; measured out-of-memory) -- 'all ZeroCopySink targets' is therefore "
+        "covered only through the trait interface",
+        "slice::sort_by_key runs as real code (stability is checked against a reference insertion sort)",
     ],
 }
 
@@ -132,7 +266,7 @@ PROPERTIES["C12"] = {
     "kani_units": ["rough_tlv"],
     "verus_units": [],
     "assumptions": [
-        "bounded: all byte strings of length <= 16 (quick) / 24 (thorough); complete below the bound "
+        "bounded: all byte strings of length <= 20 (quick) / 24 (thorough); complete below the bound "
         "(unwinding assertions on)",
         "the unsafe slice_as_tags cast runs under CBMC's pointer checks (no assumed contract)",
         "Cow::Borrowed input only (Cow::Owned differs only in who frees the buffer)",
@@ -154,7 +288,7 @@ _HCOBS_ASSUMED = [
 for _pid in ("C01", "C02", "C07", "C09"):
     PROPERTIES[_pid] = {
         "level": "proof",
-        "kani_units": [],
+        "kani_units": ["hcobs"] if _pid != "C09" else [],
         "verus_units": ["hcobs"],
         "assumptions": list(_HCOBS_ASSUMED),
     }
